@@ -73,7 +73,7 @@ def compare(ctx, s, stage, signature_of, describe, nontrivial, oracle=None):
     signature_of(key, s) -> signature dict for a property failure on that case."""
     cases, impl, model, expect = s["cases"], s["impl"], s["model"], s["expect"]
     # "run" cases: the driver prints the reference semantics' verdict there (a specification, not a model of the code)
-    corr = [k for k in cases if k[0] not in ("run", "orun") and not obs_equal(k[0], impl.get(k), model.get(k))]
+    corr = [k for k in cases if k[0] not in ("run", "orun", "ren") and not obs_equal(k[0], impl.get(k), model.get(k))]
     if oracle is None:
         fails = [(k, "expected %s" % expect[k]) for k in expect if impl.get(k) != expect[k]]
         checked = len(expect)
@@ -553,6 +553,56 @@ def run_c18(ctx, ck):
         ctx.samples.append({"case": k[1], "program": prog_source(s["cases"][k])[:300], "observed": decode_run(s["impl"].get(k))})
 
 
+# ---------------------------------------------------------------- C10
+def run_c10(ctx, ck):
+    IGNORED_KEYS.update({"bashsyntax", "batchsyntax"})
+    s = ck.run_stream(ctx, "rename", 420 if ctx.tier == "quick" else 8000)
+
+    def sig(k, s):
+        t = k[1].split("#", 1)
+        if len(t) < 2:
+            return {}
+        kind, cls = t[1].split("/")
+        return {"kind": kind, "class": cls}
+
+    def oracle(k, s):
+        if k[0] != "ren":
+            return False
+        o = toks(s["impl"].get(k))
+        v = o.get("verdict")
+        if v == "original-rejected":
+            return False                       # nothing to compare
+        if (s["model"].get(k) or "") == "spec=differ":
+            return False                       # the renaming changed the meaning of the source: generator's fault, not counted
+        if v in ("same", "rejected"):
+            return None
+        return "renamed program behaves differently: verdict=%s original prints %r (status %s), renamed prints %r (status %s, stderr %r)" % (
+            v, hexs(o.get("outA", ""))[:300], o.get("statusA"), hexs(o.get("outB", ""))[:300], o.get("statusB"), hexs(o.get("stderrB", ""))[:200])
+
+    def describe(k, s):
+        f = s["cases"][k].split(" ")
+        def src(files):
+            for e in files.split(","):
+                p = e.split(".")
+                if len(p) > 1:
+                    return bytes.fromhex(p[1]).decode("utf-8", "backslashreplace")
+            return ""
+        return json.dumps({"original": src(f[1])[:1200], "renamed": src(f[3])[:1200]})
+
+    # ren cases are an oracle on the implementation; the driver's line is the reference semantics of both sources
+    cases = s["cases"]
+    compare(ctx, s, "renamings of generated programs into ordinary names and into every class of back-end / shell names: script bytes (model) of both versions, both executed",
+            sig, describe, lambda k, s_: k[0] == "ren", oracle=oracle)
+    corr_skip = {k for k in cases if k[0] == "ren"}
+    spec = {k: s["model"].get(k) for k in corr_skip}
+    ctx.cov["distribution"] = s["meta"]
+    ctx.cov["spec_same"] = sum(1 for k in corr_skip if spec.get(k) == "spec=same")
+    ctx.cov["spec_differ_not_counted"] = sum(1 for k in corr_skip if spec.get(k) == "spec=differ")
+    ks = [k for k in cases if k[0] == "ren"]
+    for k in ks[:2]:
+        ctx.samples.append({"case": k[1], "observed": (s["impl"].get(k) or "")[:200]})
+
+
 # ---------------------------------------------------------------- C15
 def run_c15(ctx, ck):
     import re
@@ -662,6 +712,12 @@ SEM_TRUST = ["coq/Sem/Src.v is the specification of program meaning (validated o
              "the generator's notion of 'defined behaviour' (harness/proggen.go) bounds what is explored"]
 
 PROPS = {
+    "C10": {"run": run_c10,
+            "rule": "generated accepted programs (and 5 hand-written ones) x injective renamings: one or two identifiers into a class of names "
+                    "(13 classes: ordinary, helper variables, return registers, loop flags, dynamic slice names, helper scratch, helper routines, mangled locals, "
+                    "underscore names, shell builtins, shell keywords, environment variables, case variants), all others into fresh ordinary names; both versions run under /bin/bash",
+            "trusted": ["the renamer (harness/renamestream.go) preserves the meaning of the source: checked on every case by the reference semantics of both versions"],
+            "assumptions": ["Batch half (case folding) is covered by script-byte correspondence only: cmd.exe cannot run here"]},
     "C15": {"run": run_c15,
             "rule": "argument tuples over strings of length 0-4 (0-5 for TrimSpace) on the alphabet {a, b, blank}, counts -2..4, slices of 0-4 elements; quick: 2000 distinct tuples "
                     "spread over the 19 functions with short/empty arguments dense; thorough: every function's space exhaustively below 60000 tuples, 20000 samples above",
